@@ -60,8 +60,12 @@ def _run_case(case):
     try:
         out = OutStream(term, pty)
         inp = ScriptedIn(term, pty)
-        win = CursorAwareWindow(out_stream=out, in_stream=inp, keep_last_line=case.get("keep_last_line", False),
-                                hide_cursor=case.get("hide_cursor", True))
+        kw = {}  # only what differs from the documented defaults (keep_last_line False, hide_cursor True) - or everything
+        if case.get("keep_last_line", False) or case["h"] % 2:
+            kw["keep_last_line"] = case.get("keep_last_line", False)
+        if not case.get("hide_cursor", True) or case["w"] % 2:
+            kw["hide_cursor"] = case.get("hide_cursor", True)
+        win = CursorAwareWindow(out_stream=out, in_stream=inp, **kw) if case["w"] % 3 else CursorAwareWindow(out, inp, **kw)
         entry_row = term.r
         _, e = call(win.__enter__)
         if e is not None:
